@@ -496,3 +496,34 @@ example : ∃ buf log, fill [[0x62]] ⟨List.replicate 4 0, 3, []⟩ = .ok ⟨bu
     fill [[0x62], [0x61]] ⟨List.replicate 4 0, 3, []⟩ = fill [[0x61]] ⟨buf, 1, log⟩ :=
   C01_hyp_block_start_written_with_last_word_only [[0x62]] (by simp) [0x61]
 end SSVerif.HypBuf
+
+/-! ### partial results -/
+
+namespace SSVerif.HypBuf
+open SSVerif.Hist SSVerif.Nfa
+
+/-- **C01, composed down to the returned C string, any query (partial or final).**  Whenever `fsg_search_hyp` returns a
+string, it is `" ".join` of the spellings of a word sequence that labels a path of the grammar as loaded leaving its start
+state; the string occupies its allocation exactly. -/
+theorem C01_returned_c_string_labels_path_of_loaded_grammar {g : Fsg} {h : Hist} {cur : Int}
+    (wf : WFHist g h cur) (base : Nat → Nat) (str : Nat → Bytes) (hstr : ∀ w, ∀ b ∈ str w, b ≠ (0 : UInt8)) {G : Nfa}
+    (hp : projB g.toNfa G (proj g base) = true) (final : Bool) :
+    (hypRet (fun w => str (base w)) g h cur final).1 = .null ∨
+    ∃ ws len buf c log, (∃ r, Reach G G.start ws r) ∧ (hypRet (fun w => str (base w)) g h cur final).1 = .ok len buf c log ∧
+      buf.length = len ∧ cstr buf = join1 (ws.map str) ∧ (cstr buf).length + 1 = len := by
+  obtain ⟨hn, hs⟩ := C01_hyp_string_of_word_list base str g h cur final
+  cases hw : (hyp base g h cur final).1 with
+  | none => exact .inl (hn hw)
+  | some ws =>
+    right
+    obtain ⟨log, hb, _, hl, hc⟩ := hs ws hw
+    have hacc := C01_partial_in_loaded_grammar wf base hp final ws hw
+    have hnn : NoNul (ws.map str) := by
+      intro w hw' b hb'
+      obtain ⟨i, _, rfl⟩ := List.mem_map.1 hw'
+      exact hstr i b hb'
+    have hpos : 0 < lenSum (ws.map str) := lenSum_pos (by simpa using hyp_some_ne_nil base g h cur final ws hw)
+    refine ⟨ws, _, _, _, log, hacc, hb, ?_, hc hnn, ?_⟩
+    · simp [hl]; omega
+    · rw [hc hnn, hl]; omega
+end SSVerif.HypBuf
